@@ -49,6 +49,11 @@ def gen_inputs(ctx):
                 out.append(("Generate", inp, ("generate", net, acct in (0, 2 ** 31 - 1), max(0, en - st), st > en, "seed" in src)))
             out.append(("Wasabi", dict(src, net=net), ("wasabi", net)))
             out.append(("Bip85Data", dict(src, net=net), ("bip85data", net)))
+    # LONG intervals in one call (hundreds of rows): one row per index, in order
+    for st, en in (((0, 300), (250, 520)) if q else ((0, 300), (250, 520), (1, 1025), (2 ** 20 - 100, 2 ** 20 + 200))):
+        out.append(("GenerateOrder", {"seed": B(bytes(range(64))), "mnemonic": T(""), "password": T(""), "net": rng.choice(["main", "test"]),
+                                      "account": rng.choice([0, 3]), "start": B(st.to_bytes(5, "big")), "end": B(en.to_bytes(5, "big"))},
+                    ("generate-long-interval", en - st > 256)))
     # passphrases taken from the library's OWN string literals (placeholders, markers, separators, key names,
     # templates filled with small numbers), rendered with an indent: what the code treats specially must still be
     # echoed and parse back unchanged
@@ -93,6 +98,8 @@ def describe(ev):
     i = ev["inp"]
     if ev["act"] == "Generate":
         return "%s wallet%s.generate(account=%d, interval=(%d, %d))" % (i["net"], " imported from " + core.untext(i["import"])[:4] if i.get("import") else "", i["account"], int.from_bytes(bytes(i["start"]), "big"), int.from_bytes(bytes(i["end"]), "big"))
+    if ev["act"] == "GenerateOrder":
+        return "%s wallet.generate(account=%d, interval=(%d, %d)) [row paths]" % (i["net"], i["account"], int.from_bytes(bytes(i["start"]), "big"), int.from_bytes(bytes(i["end"]), "big"))
     return "%s wallet.%s()" % (i["net"], "wasabi_json" if ev["act"] == "Wasabi" else "bip85_data")
 
 
